@@ -33,7 +33,11 @@ def build(spec, rid="_rid_"):
         data[c["name"]] = vecgen.make_array(c["kind"], c["vals"])
     if rid:
         data[rid] = np.arange(spec["n"], dtype=np.int64)
-    return di.DataFrame(**data)
+    df = di.DataFrame(**data)
+    from harness import warm
+    if warm.ENABLED:
+        warm.frame_through_history(df, skip=(rid,) if rid else ())
+    return df
 
 
 def col(spec, name):
